@@ -19,7 +19,10 @@ ASSUMPTIONS = ["mutex-protected sections are atomic; code between synchronisatio
                "pthread variant of threadpool.c (the Windows completion-port variant is not modelled)"]
 
 def build(tier):
-    ctx = {"asan": False, "case_timeout": 600, "wr_drv": mtlib.build_wr_drv()}
+    ctx = {"asan": False, "case_timeout": 900, "wr_drv": mtlib.build_wr_drv(),
+           "mt": mtlib.build_cli(True), "st": mtlib.build_cli(False), "shim": mtlib.build_shim()}
+    if tier == "thorough":
+        ctx["tsan"] = mtlib.build_cli(True, tsan=True)
     return ctx
 
 # ---------------------------------------------------------------- cases
@@ -31,6 +34,33 @@ def gen_cases(tier, seed):
     for i in range(n_wr):
         cases.append({"kind": "wr", "seed": rng.randrange(1 << 48), "shape": shapes[i % len(shapes)],
                       "n": rng.choice([1, 2, 3, 5, 16, 17, 18, 33, 40, 100]) if i % 10 else rng.choice([300, 520, 700])})
+    MB = 1 << 20
+    # ---- end-to-end on the real MT binary: files spanning many jobs, every worker count
+    n_e2e = {"quick": 6, "search": 10, "thorough": 24}[tier]
+    lz4f_sizes = [4 * MB, 4 * MB + 1, 8 * MB, 13 * MB + 4097, 26 * MB + 5, 41 * MB]       # chunk = 4 MB
+    leg_sizes = [8 * MB, 8 * MB + 1, 24 * MB, 50 * MB + 3, 57 * MB]                         # block = 8 MB, ring = 4
+    optsets = [[], ["-BD"], ["-B4"], ["--content-size", "-BX"], ["--no-frame-crc", "-B5", "-BD"], ["-1", "-B7"]]
+    for i in range(n_e2e):
+        legacy = (i % 3 == 2)
+        cases.append({"kind": "e2e", "seed": rng.randrange(1 << 48), "fmt": "legacy" if legacy else "lz4f",
+                      "size": (leg_sizes if legacy else lz4f_sizes)[(i // 3 + i) % (5 if legacy else 6)] if tier != "quick"
+                              else ([50 * MB + 3, 24 * MB][(i // 3) % 2] if legacy else [26 * MB + 5, 41 * MB, 8 * MB, 4 * MB + 1][(i - i // 3) % 4]),
+                      "payload": ["mixed", "random", "text", "mixed"][i % 4],
+                      "opts": [] if legacy else optsets[i % len(optsets)],
+                      "workers": [1, 2, 3, 4, 5, 6, 7, 8] if tier != "quick" else [1, 2, 3, 5, 8]})
+    # ---- the real code under the controlled scheduler: seeded schedules and adversarial strategies
+    n_shim = {"quick": 16, "search": 40, "thorough": 80}[tier]
+    strategies = ["uniform", "sticky", "slow_writer", "slow_main", "fast_main", "wake_main", "wake_notmain", "one_worker_starved"]
+    for i in range(n_shim):
+        legacy = (i % 4 == 3)
+        cases.append({"kind": "shim", "seed": rng.randrange(1 << 48), "fmt": "legacy" if legacy else "lz4f",
+                      "size": (26 * MB + 11 if i % 8 == 3 else 50 * MB + 3) if legacy else [13 * MB + 7, 21 * MB, 26 * MB + 5][i % 3],
+                      "payload": ["random", "mixed"][i % 2], "strategy": strategies[i % len(strategies)],
+                      "N": [1, 2, 3, 4, 8][(i // 2) % 5], "mode": "free" if i % 5 == 4 else "coop"})
+    if tier == "thorough":
+        for i in range(4):
+            cases.append({"kind": "tsan", "seed": rng.randrange(1 << 48), "fmt": "legacy" if i % 2 else "lz4f",
+                          "size": 50 * MB + 3 if i % 2 else 26 * MB + 5, "payload": ["mixed", "random"][i // 2], "N": [4, 2, 8, 3][i]})
     return cases
 
 def worker_init(ctx):
@@ -121,7 +151,162 @@ def run_wr(st, case):
                    detail=dict(detail, code=clines[k][:300] if k < len(clines) else None, model=mlines[k][:300] if k < len(mlines) else None))
     return res
 
+# ---------------------------------------------------------------- end-to-end, real binaries
+def fail(res, what, detail, status="prop_fail"):
+    res.update(status=status, what=what, detail=detail, nontrivial=True)
+    return res
+
+def cli(res, exe, args, what, detail, env=None, timeout=240):
+    """run the CLI; a timeout or a non-zero exit status is a failure of the property (termination / success)"""
+    rc, out, err = mtlib.run([exe] + args, timeout=timeout, env=env)
+    res["evals"] += 1
+    if rc == "timeout":
+        fail(res, "%s did not terminate within %ds" % (what, timeout), dict(detail, cmd=args))
+        return False
+    if rc != 0:
+        msg = mtlib.SHIM_RC.get(rc, "exit status %s" % rc)
+        if rc == 66:
+            msg = "ThreadSanitizer report"
+        fail(res, "%s: %s" % (what, msg), dict(detail, cmd=args, stderr=err[-1500:]))
+        return False
+    return True
+
+def run_e2e(st, case):
+    ctx = st["ctx"]
+    rng = random.Random(case["seed"])
+    res = {"status": "ok", "kind": "e2e", "evals": 0, "keys": [], "stats": collections.Counter()}
+    detail = {k: case[k] for k in ("seed", "fmt", "size", "payload", "opts")}
+    legacy = case["fmt"] == "legacy"
+    copts = (["-l"] if legacy else []) + case["opts"]
+    with mtlib.TmpDir() as d:
+        src = os.path.join(d, "in")
+        with open(src, "wb") as f:
+            f.write(mtlib.gen_payload(rng, case["size"], case["payload"]))
+        src_sha = mtlib.file_sha(src)
+        ref = os.path.join(d, "ref.lz4")
+        if not cli(res, ctx["mt"], ["-f", "-q", "-T1"] + copts + [src, ref], "MT compression -T1", detail):
+            return res
+        ref_sha = mtlib.file_sha(ref)
+        for T in case["workers"]:
+            if T == 1:
+                continue
+            o = os.path.join(d, "o.lz4")
+            if not cli(res, ctx["mt"], ["-f", "-q", "-T%d" % T] + copts + [src, o], "MT compression -T%d" % T, detail):
+                return res
+            if mtlib.file_sha(o) != ref_sha:
+                return fail(res, "MT compression -T%d output differs from -T1 output" % T, detail)
+            res["stats"]["e2e_compress_T%d" % T] += 1
+        if "-BD" not in copts:        # the ST code path links blocks across 4 MB chunks, the MT one per chunk: different but both valid
+            o = os.path.join(d, "st.lz4")
+            if not cli(res, ctx["st"], ["-f", "-q"] + copts + [src, o], "ST compression", detail):
+                return res
+            if mtlib.file_sha(o) != ref_sha:
+                return fail(res, "MT compression output differs from the single-threaded build's output", detail)
+            res["stats"]["e2e_compress_vs_ST"] += 1
+        for name, exe in (("MT", ctx["mt"]), ("ST", ctx["st"])):
+            for sparse in ([], ["--no-sparse"]):
+                o = os.path.join(d, "dec")
+                if not cli(res, exe, ["-d", "-f", "-q"] + sparse + [ref, o], "%s decompression" % name, detail):
+                    return res
+                if mtlib.file_sha(o) != src_sha:
+                    return fail(res, "%s decompression %s does not reproduce the input" % (name, " ".join(sparse)), detail)
+                res["stats"]["e2e_decode_%s" % name] += 1
+        res["stats"]["e2e_%s_jobs_%d" % (case["fmt"], -(-case["size"] // ((8 if legacy else 4) << 20)))] += 1
+        res["keys"] = [hashlib.sha1(repr(sorted(detail.items())).encode()).hexdigest()]
+    return res
+
+def strategy_env(case, N, writer_tid, seed, d, tag):
+    s = case["strategy"]
+    kw = {"mode": case["mode"], "seed": seed}
+    if case["mode"] == "free":
+        kw["perturb"] = 40
+        return mtlib.shim_env(**kw)
+    if s == "sticky":
+        kw["sticky"] = 92
+    elif s == "slow_writer":
+        kw["weights"] = "%d:1" % writer_tid
+    elif s == "slow_main":
+        kw["weights"] = "0:1"
+    elif s == "fast_main":
+        kw["weights"] = "-1:5,0:400"
+    elif s == "wake_main":
+        kw["wake"] = "main"
+    elif s == "wake_notmain":
+        kw["wake"] = "notmain"
+    elif s == "one_worker_starved":
+        kw["weights"] = "1:1"
+    return mtlib.shim_env(**kw)
+
+def run_shim(st, case):
+    """real thread pool + lz4io pipelines, every scheduling and wake-up decision taken by the shim from a seeded
+    strategy; deadlock, ownership violation, wrong output or non-termination = the property fails on the real code"""
+    ctx = st["ctx"]
+    rng = random.Random(case["seed"])
+    res = {"status": "ok", "kind": "shim", "evals": 0, "keys": [], "stats": collections.Counter()}
+    detail = {k: case[k] for k in ("seed", "fmt", "size", "payload", "strategy", "N", "mode")}
+    legacy = case["fmt"] == "legacy"
+    N = case["N"]
+    with mtlib.TmpDir() as d:
+        src = os.path.join(d, "in")
+        with open(src, "wb") as f:
+            f.write(mtlib.gen_payload(rng, case["size"], case["payload"]))
+        src_sha = mtlib.file_sha(src)
+        ref = os.path.join(d, "ref.lz4")
+        if not cli(res, ctx["mt"], ["-f", "-q", "-T1"] + (["-l"] if legacy else []) + [src, ref], "MT compression -T1", detail):
+            return res
+        ref_sha = mtlib.file_sha(ref)
+        for rep in range(2):
+            seed = rng.randrange(1 << 31)
+            o = os.path.join(d, "o.lz4")
+            env = strategy_env(case, N, N + 1, seed, d, "c")
+            if not cli(res, ctx["shim"], ["-f", "-q", "-T%d" % N] + (["-l"] if legacy else []) + [src, o],
+                       "compression under the %s scheduler (strategy %s, seed %d)" % (case["mode"], case["strategy"], seed), detail, env=env):
+                return res
+            if mtlib.file_sha(o) != ref_sha:
+                return fail(res, "compression under schedule (strategy %s, seed %d) differs from the sequential output" % (case["strategy"], seed), detail)
+            o = os.path.join(d, "dec")
+            env = strategy_env(case, 1, 2, seed, d, "d")
+            if not cli(res, ctx["shim"], ["-d", "-f", "-q", ref, o],
+                       "decompression under the %s scheduler (strategy %s, seed %d)" % (case["mode"], case["strategy"], seed), detail, env=env):
+                return res
+            if mtlib.file_sha(o) != src_sha:
+                return fail(res, "decompression under schedule (strategy %s, seed %d) does not reproduce the input" % (case["strategy"], seed), detail)
+            res["stats"]["shim_%s_%s" % (case["mode"], case["strategy"] if case["mode"] == "coop" else "perturbed")] += 2
+            res["keys"].append(hashlib.sha1(("%r%d" % (sorted(detail.items()), seed)).encode()).hexdigest())
+    return res
+
+def run_tsan(st, case):
+    ctx = st["ctx"]
+    rng = random.Random(case["seed"])
+    res = {"status": "ok", "kind": "tsan", "evals": 0, "keys": [], "stats": collections.Counter()}
+    detail = {k: case[k] for k in ("seed", "fmt", "size", "payload", "N")}
+    env = dict(os.environ)
+    env.pop("LD_PRELOAD", None)
+    env["TSAN_OPTIONS"] = "exitcode=66:halt_on_error=0"
+    legacy = case["fmt"] == "legacy"
+    with mtlib.TmpDir() as d:
+        src = os.path.join(d, "in")
+        with open(src, "wb") as f:
+            f.write(mtlib.gen_payload(rng, case["size"], case["payload"]))
+        o = os.path.join(d, "o.lz4")
+        if not cli(res, ctx["tsan"], ["-f", "-q", "-T%d" % case["N"]] + (["-l"] if legacy else []) + [src, o], "TSan build, compression", detail, env=env, timeout=600):
+            return res
+        o2 = os.path.join(d, "dec")
+        if not cli(res, ctx["tsan"], ["-d", "-f", "-q", o, o2], "TSan build, decompression", detail, env=env, timeout=600):
+            return res
+        if mtlib.file_sha(o2) != mtlib.file_sha(src):
+            return fail(res, "TSan build: round trip differs", detail)
+        res["stats"]["tsan_runs"] += 2
+        res["keys"] = [hashlib.sha1(repr(sorted(detail.items())).encode()).hexdigest()]
+    return res
+
 def run_case(st, case):
     if case["kind"] == "wr":
         return run_wr(st, case)
+    if case["kind"] == "e2e":
+        return run_e2e(st, case)
+    if case["kind"] == "shim":
+        return run_shim(st, case)
+    if case["kind"] == "tsan":
+        return run_tsan(st, case)
     return {"status": "harness_error", "what": "unknown case kind %r" % case.get("kind")}
